@@ -402,3 +402,12 @@ def all_stmts(fnode):
                     rec(h.body)
     rec(fnode.body)
     return out
+
+
+def stmt_before(fnode, a, b):
+    """statement a comes before statement b in the source order of the function (positions, not line numbers:
+    inlined code keeps the line numbers of where it came from)"""
+    pos = {id(x): i for i, x in enumerate(all_stmts(fnode))}
+    if id(a) not in pos or id(b) not in pos:
+        return getattr(a, "lineno", 0) < getattr(b, "lineno", 0)
+    return pos[id(a)] < pos[id(b)]
